@@ -321,7 +321,7 @@ Matrix::Matrix(unsigned int dim_rows, unsigned int dim_columns, double entry)
 }
 
 Matrix::Matrix(std::vector<std::vector<double>> entries)
-: components(entries), rows(entries.size()), columns(entries[0].size())
+: components(entries), rows(entries.size()), columns(entries.empty() ? 0 : entries[0].size())
 {
 	for(unsigned int i = 0; i < rows; i++)
 	{
